@@ -267,7 +267,20 @@ func checkC10(r *core.Run) {
 	r.Floor("C10.status", 2)
 	// ---- C10.marker
 	for _, fn := range u.undoFns {
-		sp := &flow.Spec{W: w, Depth: 2, Split: []flow.Tag{"sawrecord"},
+		// "no record" may be told from the loop over the records having run or from the number of records read:
+		// the two are kept together per collection the routine ranges over
+		split := []flow.Tag{"sawrecord"}
+		ast.Inspect(fn.Decl.Body, func(n ast.Node) bool {
+			if rs, ok := n.(*ast.RangeStmt); ok {
+				if id, ok := ast.Unparen(rs.X).(*ast.Ident); ok {
+					if v, ok := fn.Pkg.TypesInfo.Uses[id].(*types.Var); ok && !v.IsField() && v.Parent() != v.Pkg().Scope() {
+						split = append(split, flow.RangedTag(v))
+					}
+				}
+			}
+			return true
+		})
+		sp := &flow.Spec{W: w, Depth: 2, Split: split,
 			Classify: func(pkg *packages.Package, call *ast.CallExpr, callee *types.Func) []flow.Tag {
 				switch {
 				case isMarkerInsert(w, callee):
@@ -390,7 +403,34 @@ func checkC10(r *core.Run) {
 			}
 			args := c.Args
 			if len(args) == 1 {
-				if cl, ok := ast.Unparen(args[0]).(*ast.CompositeLit); ok {
+				// the list of bound values: a literal, a list built by a helper of the package, or (passed as
+				// xs...) a list copied element by element from such a list
+				src := ast.Unparen(args[0])
+				if c.Ellipsis.IsValid() {
+					if id, ok := src.(*ast.Ident); ok {
+						xo := info.Uses[id]
+						ast.Inspect(f.Decl.Body, func(m ast.Node) bool {
+							rs, ok := m.(*ast.RangeStmt)
+							if !ok || rs.Value == nil {
+								return true
+							}
+							vo := core.ObjOf(info, rs.Value)
+							for _, st := range rs.Body.List {
+								as, ok := st.(*ast.AssignStmt)
+								if !ok || len(as.Lhs) != 1 || len(as.Rhs) != 1 || core.ObjOf(info, as.Lhs[0]) != xo {
+									continue
+								}
+								if ap, ok := ast.Unparen(as.Rhs[0]).(*ast.CallExpr); ok && len(ap.Args) == 2 && !ap.Ellipsis.IsValid() {
+									if fid, ok := ap.Fun.(*ast.Ident); ok && fid.Name == "append" && core.ObjOf(info, ap.Args[0]) == xo && vo != nil && core.ObjOf(info, ap.Args[1]) == vo && len(rs.Body.List) == 1 {
+										src = ast.Unparen(rs.X)
+									}
+								}
+							}
+							return true
+						})
+					}
+				}
+				if cl, _ := findLitDeep(f, src, 3); cl != nil {
 					args = cl.Elts
 				}
 			}
@@ -401,6 +441,41 @@ func checkC10(r *core.Run) {
 		})
 	}
 	errDiscipline(r, "C10.late", insertFns, nil)
+	// whoever inserts through them hands every failure of the insert on — also one it recognises (a duplicate key
+	// means a row of this branch exists: the late flush's real undo log, or the marker; telling which needs a read,
+	// so "already there" is not an answer the marker step may give itself)
+	isIns := map[*types.Func]bool{}
+	for _, f := range insertFns {
+		isIns[f.Obj] = true
+	}
+	for _, f := range w.SortedFuncs() {
+		if f.Pkg.PkgPath != pUndoBase || w.IsTestFile(f.Decl.Pos()) || isIns[f.Obj] {
+			continue
+		}
+		calls := false
+		for _, cs := range w.Calls(f) {
+			if isIns[cs.Static] {
+				calls = true
+			}
+		}
+		if !calls {
+			continue
+		}
+		r.Fn(f)
+		res := (&flow.Spec{W: w, Depth: 0, Classify: func(pkg *packages.Package, call *ast.CallExpr, callee *types.Func) []flow.Tag {
+			if isIns[callee] {
+				return []flow.Tag{"ins"}
+			}
+			return nil
+		}}).Analyze(f)
+		for _, ex := range res.Exits {
+			if ex.St.Has("fail:ins") {
+				r.Sites++
+				r.Check(ex.Class == flow.ExitErr, "C10.late", core.ShortKey(f.Obj)+" "+exitRole(ex, func(t string) bool { return t == "fail:ins" || strings.HasPrefix(t, "matched:") })+" : a failed undo-log insert is an error", w.Pos(ex.Pos),
+					"the insert's failure is returned", "after the undo-log insert failed this return can carry a nil error: a duplicate key (the row of a late phase one, or the marker) is taken for success, the rollback is answered although nothing blocked or compensated the late commit")
+			}
+		}
+	}
 	r.Floor("C10.tx", 3)
 	r.Floor("C10.marker", 4)
 	r.Floor("C10.late", 3)
